@@ -335,7 +335,6 @@ def Registry.isAvail (r : Registry) (a : Nat) : Bool := r.available.any (fun p =
 def Registry.nextOk (r : Registry) (picks : List Nat) : Bool :=
   r.available.all (fun p => (picks.filter (fun a => p.2.contains a)).length == (if p.2.isEmpty then 0 else 1))
     && picks.all (fun a => r.isAvail a)
-    && picks.length == (r.available.filter (fun p => !p.2.isEmpty)).length
 
 /-- a canonical admissible result -/
 def Registry.nextCanon (r : Registry) : List Nat :=
@@ -660,6 +659,12 @@ def RObj.observe (nJobs : Nat) : RObj → Obs
 def RRoute.withTour (c : RRoute) (t : RTour) : RRoute :=
   { c with tour := t, stale := (if c.kind = Kind.rc then true else c.stale) }
 
+/-- only a route context has a stale flag / can be given to a registry context -/
+def getRRc (st : Store RObj) (h : Nat) : Option RRoute :=
+  match st.get h with
+  | some (.rt c) => if c.kind = Kind.rc then some c else none
+  | _ => none
+
 /-- reference semantics of one operation. `none` = the operation is outside the contract (an insertion
     position that is not between the depot ends): the reference stops there. A documented panic
     (`remove_activity_at` on a depot marker, inserting a job-less activity) leaves everything unchanged. -/
@@ -690,18 +695,18 @@ def RObj.eff (w : World) (st : Store RObj) : Op → Option (List (Nat × Option 
       some ([(h, some (.rt (c.withTour r.1)))], match r.2 with | some j => .job j | none => .panic)
     | _ => none
   | .touch h =>
-    match st.get h with
-    | some (.rt c) => some ([(h, some (.rt { c with stale := true }))], .unit)
-    | _ => none
+    match getRRc st h with
+    | some c => some ([(h, some (.rt { c with stale := true }))], .unit)
+    | none => none
   | .accept h =>
-    match st.get h with
-    | some (.rt c) =>
+    match getRRc st h with
+    | some c =>
       some ([(h, some (.rt (if c.stale then { c with st := none, cnt := some c.tour.mid.length, stale := false } else c)))], .unit)
-    | _ => none
+    | none => none
   | .setState h v =>
-    match st.get h with
-    | some (.rt c) => some ([(h, some (.rt { c with stale := true, st := some v }))], .unit)
-    | _ => none
+    match getRRc st h with
+    | some c => some ([(h, some (.rt { c with stale := true, st := some v }))], .unit)
+    | none => none
   | .newReg dst => some ([(dst, some (.reg false (RReg.new w.group.length)))], .unit)
   | .newRctx dst => some ([(dst, some (.reg true (RReg.new w.group.length)))], .unit)
   | .use h a =>
@@ -720,12 +725,12 @@ def RObj.eff (w : World) (st : Store RObj) : Op → Option (List (Nat × Option 
       else some ([(h, some (.reg true u.1))], .bool false)
     | _ => none
   | .freeRoute h rh =>
-    match st.get h, st.get rh with
-    | some (.reg true g), some (.rt c) => let u := g.free c.actor; some ([(h, some (.reg true u.1)), (rh, none)], .bool u.2)
+    match st.get h, getRRc st rh with
+    | some (.reg true g), some c => let u := g.free c.actor; some ([(h, some (.reg true u.1)), (rh, none)], .bool u.2)
     | _, _ => none
   | .useRoute h rh =>
-    match st.get h, st.get rh with
-    | some (.reg true g), some (.rt c) => let u := g.use c.actor; some ([(h, some (.reg true u.1))], .bool u.2)
+    match st.get h, getRRc st rh with
+    | some (.reg true g), some c => let u := g.use c.actor; some ([(h, some (.reg true u.1))], .bool u.2)
     | _, _ => none
   | .next h picks =>
     match st.get h with
